@@ -174,6 +174,13 @@ func (env *SpecEnv) evalIdent(e *SExpr) Val {
 		t := fc.resolveType(ty, env.homePkg)
 		return Val{T: fc.heapGet(env.st(), "ghost$"+e.Name, fc.sortOf(t)), Ty: t}
 	}
+	if fc.cs != nil && fc.cs != env.home {
+		// a ghost of the package being verified, named by an extern contract written for that package
+		if ty, ok := fc.cs.Ghosts[e.Name]; ok {
+			t := fc.resolveType(ty, fc.pkg.Types)
+			return Val{T: fc.heapGet(env.st(), "ghost$"+e.Name, fc.sortOf(t)), Ty: t}
+		}
+	}
 	if obj := types.Universe.Lookup(e.Name); obj != nil {
 		if c, ok := obj.(*types.Const); ok {
 			return fc.constVal(c.Val(), c.Type())
